@@ -17,7 +17,7 @@ import (
 func init() {
 	register(&Prop{ID: "C13", Witness: true, N: 20000, Quick: 800, StallSec: 900,
 		Assume: []string{"the reference for a call is the same call on a value compiled freshly for that call (no external oracle)", "the history of a value is driven in one goroutine (concurrent histories belong to C06)"},
-		Rule:   "case = one pattern G(D,i) under the default configuration and under two small-cache configurations (MaxDFAStates 2 and 16); a long-lived Regex and a long-lived meta.Engine receive a history of 36 index-chosen calls (Match, FindIndex, FindSubmatchIndex, FindAllIndex, Count, ReplaceAll, FindAllSubmatchIndex, Engine.FindIndices/IsMatch/Count/FindSubmatch) over the case's haystacks, haystacks of neighbouring cases, cache-churning random walks a 70,000-byte haystack for every 50th case, and for every 8th case an epoch wrap in the middle of the history: cheap calls until the 16-bit generation of the parked backtracker state (read through the verif hook) is back at its value after step 0, then steps 1-16 are replayed under the same generation numbers as their first execution, with runtime.GC() in between; after EVERY call the result is compared with the same call on a fresh value, and every 6th call is repeated; one evaluation = one compared call; distinct_nontrivial = distinct (pattern, config, history position) triples where the fresh value reports a match",
+		Rule:   "case = one pattern G(D,i) under the default configuration, in leftmost-longest mode and under two small-cache configurations (MaxDFAStates 2 and 16); a long-lived Regex and a long-lived meta.Engine receive a history of 36 index-chosen calls (Match, FindIndex, FindSubmatchIndex, FindAllIndex, Count, ReplaceAll, FindAllSubmatchIndex, Engine.FindIndices/IsMatch/Count/FindSubmatch) over the case's haystacks, haystacks of neighbouring cases, cache-churning random walks a 70,000-byte haystack for every 50th case, and for every 8th case an epoch wrap in the middle of the history: cheap calls until the 16-bit generation of the parked backtracker state (read through the verif hook) is back at its value after step 0, then steps 1-16 are replayed under the same generation numbers as their first execution, with runtime.GC() in between; after EVERY call the result is compared with the same call on a fresh value, and every 6th call is repeated; one evaluation = one compared call; distinct_nontrivial = distinct (pattern, config, history position) triples where the fresh value reports a match",
 		Triage: func(f *Failure) string { return "" },
 		Run:    runC13})
 }
@@ -61,6 +61,10 @@ func runC13(w *W, i uint64) {
 			cfg  *meta.Config
 		}{"MaxDFAStates=" + strconv.Itoa(int(st)), &cf})
 	}
+	cfgs = append(cfgs, struct {
+		name string
+		cfg  *meta.Config
+	}{"longest", nil})
 	for _, cf := range cfgs {
 		compile := func() (*coregex.Regex, *meta.Engine) {
 			if cf.cfg == nil {
@@ -69,6 +73,11 @@ func runC13(w *W, i uint64) {
 					return nil, nil
 				}
 				e, _ := meta.Compile(c.Pattern)
+				if cf.name == "longest" && e != nil {
+					// leftmost-longest mode: other loops of the simulators (early termination, longest tracking)
+					re.Longest()
+					e.SetLongest(true)
+				}
 				return re, e
 			}
 			re, err := coregex.CompileWithConfig(c.Pattern, *cf.cfg)
